@@ -142,7 +142,7 @@ theorem tie_diskfs_rebases :
        "if err = disk.MkdirAll(filepath.Dir(v1), filesystem.DefaultUnixDirMode); err != nil => return err",
        "return ioutil.WriteFile(v1, p2, p3)",
        "Writer:",
-       "if v1, err = os.OpenFile(recv.path + p1, os.O_WRONLY | os.O_CREATE | os.O_TRUNC, filesystem.DefaultUnixFileMode); err != nil => return nil, err",
+       "if v1, err = os.OpenFile(recv.path + p1, os.O_CREATE | os.O_TRUNC | os.O_WRONLY, filesystem.DefaultUnixFileMode); err != nil => return nil, err",
        "return NewFileHandler(v1), nil"] := by
   decide
 
